@@ -105,6 +105,19 @@ def handleRender (args : List Json) : Json :=
     | _, _, _ => jerr "bad-case"
   | _ => jerr "bad-args"
 
+/-- `["c16renderlax", kind, data, [stmt…]]` → `{"ok": out}`: top-level atomic nodes under `Mode.LAX` -/
+def handleRenderLax (args : List Json) : Json :=
+  match args with
+  | [.str kind, data, stmts] =>
+    match kindOf kind, dataOf data, (asArr? stmts).bind (mapM? stmtOf) with
+    | some k, some (.dict g), some ss =>
+      if ss.all Stmt.atomic then
+        Json.mkObj [("ok", jstr (renderLax builtinFilters k
+          { scopes := [], locals := [], globals := g.map (fun kv => (kv.1, Val.data kv.2)) } ss).2)]
+      else jerr "not-atomic"
+    | _, _, _ => jerr "bad-case"
+  | _ => jerr "bad-args"
+
 def pokeOf : String → Option Poke
   | "str" => some .str | "iter" => some .iter | "len" => some .len | "getitem" => some .getitem
   | "contains" => some .contains | "int" => some .int | "hash" => some .hash | "reversed" => some .reversed
@@ -162,6 +175,6 @@ def handleShape (args : List Json) : Json :=
   | _ => jerr "bad-args"
 
 def commands : List (String × (List Lean.Json → Lean.Json)) :=
-  [("c16render", handleRender), ("c16poke", handlePoke), ("c16shape", handleShape)]
+  [("c16render", handleRender), ("c16renderlax", handleRenderLax), ("c16poke", handlePoke), ("c16shape", handleShape)]
 
 end Driver.C16
